@@ -129,6 +129,15 @@ def cases(tier, seed):
     hist = [[]] + [[a] for a in PRE] + [[a, b] for a in PRE for b in PRE]
     if tier == "thorough":
         hist += [[a, b, c] for a in PRE for b in PRE for c in PRE]
+        # a refusal directly after another refusal (representative first refusals of every kind)
+        reps = []
+        seen_kinds = set()
+        for i, r in enumerate(REFUSALS):
+            key = r[0].split(":")[0] + ":" + r[1]
+            if key not in seen_kinds and r[3] is not None:
+                seen_kinds.add(key)
+                reps.append(i)
+        hist += [["refusal:%d" % i] for i in reps] + [["dl_seg", "refusal:%d" % i] for i in reps[:6]]
     idx = list(range(len(REFUSALS)))
     idx = idx[seed % len(idx):] + idx[:seed % len(idx)]
     for chunk in range(0, len(idx), 8):
@@ -238,7 +247,11 @@ def run_server(case, st):
             sim = ServerSim(ENTRIES)
             ok = True
             for n, pre in enumerate(hist):
-                ok = ok and do_pre(sim, pre, n, st, rc)
+                if pre.startswith("refusal:"):
+                    do_refusal(sim, REFUSALS[int(pre.split(":")[1])])
+                    sim.ref.store = dict(sim.real_store())
+                else:
+                    ok = ok and do_pre(sim, pre, n, st, rc)
             if not ok:
                 continue
             store_before = sim.real_store()
